@@ -32,6 +32,7 @@ def h_op(f, ns, start='zero', kind='offline', same_start=False):
     binary = op in BIN or op in BINT
     bounds = [c for c in f[1:] if isinstance(c, int)]
     a, b = (bounds + [None, None])[:2]
+    cache = {}
 
     def body(env):
         A = env.A
@@ -50,9 +51,9 @@ def h_op(f, ns, start='zero', kind='offline', same_start=False):
         tau = env.real('tau')
         env.assume(A.And(A.le(S, tau), A.le(tau, E)))
         if binary:
-            want = refct.ref_binary(A, op, sigs[0], sigs[1], tau, S, a, b)
+            want = symx.memo(env, cache, 'want', lambda: refct.ref_binary(A, op, sigs[0], sigs[1], tau, S, a, b))
         else:
-            want = refct.ref_unary(A, op, sigs[0], tau, a, b)
+            want = symx.memo(env, cache, 'want', lambda: refct.ref_unary(A, op, sigs[0], tau, a, b))
         got = refct.val(A, out, tau)
         res.append(('rho_ct', A.eq(got, want)))
         return res
